@@ -463,6 +463,8 @@ func (s *session) doTargetTooHigh(reject targetTooHigh) (nextState resendState, 
 
 func (s *session) sendResendRequest(beginSeq, endSeq int) (nextState resendState, err error) {
 	nextState.resendRangeEnd = endSeq
+	// Messages arriving ahead of the gap are kept in this map, which every copy of the state shares.
+	nextState.messageStash = make(map[int]*Message)
 
 	resend := NewMessage()
 	resend.Header.SetBytes(tagMsgType, msgTypeResendRequest)
